@@ -16,23 +16,43 @@ use crate::refmodel::format::decode_archive;
 use crate::scen::{self, CloneOpts};
 use crate::sys;
 
-const OUTPUTS: [&str; 4] = ["absent", "file", "blockdev-large", "blockdev-small"];
+const OUTPUTS: [&str; 6] = ["absent", "file", "blockdev-large", "blockdev-small", "blockdev-small-via-symlink", "absent+concurrent-creator"];
 const FLAGS: [&str; 3] = ["none", "force-create", "seed-output"];
 const ARCHIVES: [&str; 6] = ["valid", "random-bytes", "header-bit-flip", "truncated-header", "verify-header-mismatch", "empty-file"];
 
 pub const CLONE_CELLS: u32 = (OUTPUTS.len() * FLAGS.len() * ARCHIVES.len() * 2) as u32;
-pub const COMPRESS_CELLS: u32 = 4;
+pub const COMPRESS_CELLS: u32 = 6;
 
 pub fn run(ctx: &mut Ctx) {
-    let cell = gen::draw(CLONE_CELLS + COMPRESS_CELLS);
-    if cell >= CLONE_CELLS {
-        run_compress(ctx, cell - CLONE_CELLS);
+    // a fifth of the runs goes to the (few) compress cells
+    if gen::chance(1, 5) {
+        run_compress(ctx, gen::draw(COMPRESS_CELLS));
     } else {
-        run_clone(ctx, cell);
+        run_clone(ctx, gen::draw(CLONE_CELLS));
     }
 }
 
+const MARKER: &[u8] = b"created by another process while bita was running";
+
+/// A concurrent process that creates the output path exclusively (like `set -o noclobber`)
+/// at whatever moment the scheduler picks: a detached task in the simulated pool.
+fn spawn_creator(path: &'static str) -> std::sync::Arc<std::sync::atomic::AtomicBool> {
+    let created = std::sync::Arc::new(std::sync::atomic::AtomicBool::new(false));
+    let c2 = created.clone();
+    tokio::__spawn_blocking_detached(move || {
+        use std::io::Write;
+        if let Ok(mut f) = std::fs::OpenOptions::new().write(true).create_new(true).open(path) {
+            let _ = f.write_all(MARKER);
+            c2.store(true, std::sync::atomic::Ordering::Relaxed);
+        }
+    });
+    created
+}
+
 fn run_compress(ctx: &mut Ctx, cell: u32) {
+    if cell >= 4 {
+        return run_compress_race(ctx, cell == 5);
+    }
     let existing = cell & 1 == 1;
     let force = cell & 2 == 2;
     let spec = {
@@ -84,6 +104,52 @@ fn run_compress(ctx: &mut Ctx, cell: u32) {
     }
     ctx.verdict.nontrivial = true;
     ctx.verdict.shape = 1000 + cell as u64;
+}
+
+fn run_compress_race(ctx: &mut Ctx, stdin: bool) {
+    let spec = {
+        let mut s = scen::gen_compress_spec(true, false);
+        s.metadata = scen::cli_safe_metadata(&s.metadata);
+        s
+    };
+    let (_, data) = gen::gen_source(&spec.cfg, 16 * 1024);
+    scen::quiet(|| {
+        let _ = std::fs::remove_file("a.cba");
+    });
+    if stdin {
+        scen::set_stdin(Some(data.clone()));
+    } else {
+        scen::put_file("src.bin", &data);
+        scen::set_stdin(None);
+    }
+    let sched = scen::draw_schedule();
+    let created = spawn_creator("a.cba");
+    let r = scen::run(&scen::compress_args(&spec, if stdin { None } else { Some("src.bin") }, "a.cba", false));
+    scen::set_stdin(None);
+    let created = created.load(std::sync::atomic::Ordering::Relaxed);
+    let desc = json!({"command": "compress", "output": "absent + concurrent exclusive creator", "stdin": stdin, "schedule": sched, "creator_won": created, "outcome": r.outcome.short()});
+    if ctx.want_sample {
+        ctx.verdict.sample = Some(desc.clone());
+    }
+    simkit::with(|s| s.event("c14-cell", 2000 + stdin as u64, created as u64));
+    if created {
+        // the other process created the file: bita must refuse and leave it alone
+        let now = scen::get_file("a.cba");
+        if now.as_deref() != Some(MARKER) {
+            ctx.fail("compress-overwrote-concurrently-created-output", format!("the output path was created by another process while compress was running (it did not exist before and --force-create was not given); compress {} and the file no longer holds the other process's data; {}", r.outcome.short(), desc));
+            return;
+        }
+        if r.outcome.is_success() {
+            ctx.fail("compress-race-succeeded", format!("compress reported success although the output was created by someone else; {}", desc));
+            return;
+        }
+        simkit::count("refusal:concurrent-creator");
+    } else if !r.outcome.is_success() {
+        ctx.fail(&format!("compress-outcome:{}", r.outcome.class()), format!("compress that must proceed ended with {}; {}", r.outcome.short(), desc));
+        return;
+    }
+    ctx.verdict.nontrivial = true;
+    ctx.verdict.shape = 2000 + stdin as u64 + 2 * created as u64;
 }
 
 fn run_clone(ctx: &mut Ctx, cell: u32) {
@@ -138,8 +204,10 @@ fn run_clone(ctx: &mut Ctx, cell: u32) {
         }
     }
     // the output as found
+    let via_symlink = output_kind == "blockdev-small-via-symlink";
+    let racing = output_kind == "absent+concurrent-creator";
     let prior: Option<Vec<u8>> = match output_kind {
-        "absent" => None,
+        "absent" | "absent+concurrent-creator" => None,
         "file" => Some(gen::gen_seed_data(&m.source, m.spec.cfg.expected_avg()).1),
         "blockdev-large" => {
             let mut p = gen::gen_seed_data(&m.source, m.spec.cfg.expected_avg()).1;
@@ -158,7 +226,8 @@ fn run_clone(ctx: &mut Ctx, cell: u32) {
         }
     };
     let blockdev = output_kind.starts_with("blockdev");
-    let dev_too_small = output_kind == "blockdev-small" && src_len > 0;
+    let dev_too_small = output_kind.starts_with("blockdev-small") && src_len > 0;
+    let out_name = if via_symlink { "outlink" } else { "out.bin" };
     match &prior {
         Some(p) => scen::put_file("out.bin", p),
         None => scen::quiet(|| {
@@ -167,6 +236,10 @@ fn run_clone(ctx: &mut Ctx, cell: u32) {
     }
     scen::quiet(|| {
         let _ = std::fs::remove_file("a.cba");
+        let _ = std::fs::remove_file("outlink");
+        if via_symlink {
+            let _ = std::os::unix::fs::symlink("out.bin", "outlink");
+        }
     });
     let server = if http {
         Some(scen::serve(Arc::new(presented.clone())))
@@ -191,7 +264,9 @@ fn run_clone(ctx: &mut Ctx, cell: u32) {
     };
     scen::set_stdin(None);
     scen::draw_schedule();
-    let r = scen::run(&scen::clone_args("a.cba", "out.bin", &opts));
+    let creator = if racing { Some(spawn_creator("out.bin")) } else { None };
+    let r = scen::run(&scen::clone_args("a.cba", out_name, &opts));
+    let creator_won = creator.map(|c| c.load(std::sync::atomic::Ordering::Relaxed)).unwrap_or(false);
     if server.is_some() {
         crate::net::uninstall();
     }
@@ -204,7 +279,7 @@ fn run_clone(ctx: &mut Ctx, cell: u32) {
     });
     let desc = json!({
         "command": "clone", "transport": if http { "http" } else { "local" }, "archive": archive_kind, "flag": flag, "output": output_kind,
-        "prior_len": prior.as_ref().map(|p| p.len()), "source_len": src_len, "verify_header": verify_header.is_some(), "archive_options": m.desc,
+        "prior_len": prior.as_ref().map(|p| p.len()), "source_len": src_len, "creator_won": creator_won, "verify_header": verify_header.is_some(), "archive_options": m.desc,
     });
     if ctx.want_sample {
         ctx.verdict.sample = Some(desc.clone());
@@ -212,6 +287,18 @@ fn run_clone(ctx: &mut Ctx, cell: u32) {
     simkit::with(|s| s.event("c14-cell", cell as u64, 0));
     // which refusal, if any, does the statement name for this cell?
     let archive_refusal = matches!(archive_kind, "random-bytes" | "header-bit-flip" | "truncated-header" | "verify-header-mismatch" | "empty-file");
+    // a concurrent exclusive creator that won the race made the output exist: what it wrote is
+    // the "prior content" that a refusing (neither -f nor --seed-output) clone must leave alone
+    let prior = if creator_won { Some(MARKER.to_vec()) } else { prior };
+    let (opened, touched) = if creator_won {
+        // the creator's own open/write went through the seam too: judge by content only
+        (false, false)
+    } else {
+        (opened, touched)
+    };
+    if creator_won {
+        simkit::count("refusal:concurrent-creator");
+    }
     let exists_refusal = prior.is_some() && flag == "none";
     let size_refusal = dev_too_small;
     let refusal = archive_refusal || exists_refusal || size_refusal;
